@@ -20,6 +20,9 @@ import (
 	"verifharness/vkit"
 )
 
+// Rule is the generation / non-triviality rule of C44 (all parts report into one statistics collector).
+const Rule = "generated concurrent programs: node type (miner / sharder, which selects the admissible operations), 0..4 sequential set-up operations, then 2..4 goroutines x 1..6 operations over one shared object, each program repeated on fresh objects; objects: (a) one round.Round, (b) one published block.Block, (c) miner ValidateTransactions over generated multi-batch blocks with invalid transactions at drawn positions, the current round moving on and 1..3 blocks validated concurrently, (d) one chain.Chain's block / round maps, current round and latest deterministic block, (e) one miner.Round; operations are the exported calls real miner/sharder workers and handlers make, block objects are private to a goroutine until published; oracle: race detector silent (GORACE halt_on_error), every program finishes (watchdog), for (c) the verdict equals the block's validity; non-trivial = a program with two goroutines whose operations touch a common part of the object with at least one writer, for (c) a block with >= 2 batches in which a flag is raised (invalid transaction or round moved on); distinct by (object, set of conflicting operation pairs), for (c) by block shapes"
+
 // Op is one operation of the shared object as a real worker issues it.
 type Op struct {
 	Name   string
@@ -85,7 +88,7 @@ func Run(t *testing.T, o Object) {
 	if !RaceEnabled {
 		t.Fatalf("VERIF-HARNESS-ERROR C44 part %q was built without -race: the race detector is the oracle", o.Name)
 	}
-	st := vkit.For("C44")
+	st := vkit.For("C44").SetRule(Rule)
 	if o.MaxOps == 0 {
 		o.MaxOps = 6
 	}
